@@ -2,7 +2,7 @@
 import random
 from fractions import Fraction
 from . import core, sketchcheck, wire
-from .sketchgen import Builder, mapspec, STORES, rand_values
+from .sketchgen import Builder, mapspec, STORES, rand_values, spec_list
 from .c06 import split_kobs
 from .c07 import gen_stream
 from .core import Case, f2h
@@ -16,7 +16,7 @@ def bad_layout(ex): return lambda a, env: "an encoding produced by the implement
 def run(tier, seed):
     pid = "C08"; rng = random.Random(seed)
     ok, log = core.build_vrun()
-    specs = [mapspec(rng)[0] for _ in range(8 if tier == "quick" else 30)]
+    specs = spec_list(rng, 8 if tier == "quick" else 30)
     facts = sketchcheck.learn_specs(pid, specs) if ok else {}
     # siblings: same kind and gamma, another index offset (one of the two often exactly 0) -- a different mapping
     sib = {}
